@@ -131,7 +131,11 @@ def main():
     fb_keys = []            # NT (table, key) of feedback j, in collection order
     owners = case["fb_owners"]          # list: -1 = robot, else component index, grouped in collection order
 
+    last_bool = {}
+
     def fb_kind(j):
+        if j % 7 == 3:
+            return "bool"          # -> bool: a boolean topic (one bit of the scripted value gets through; read_nt checks that bit)
         if j % 6 == 0 and j > 0:
             return "opt_int"       # -> Optional[int]: the hint names no topic type, the value (an int) does
         if j % 5 == 4:
@@ -183,6 +187,14 @@ def main():
                 if k in raises:
                     raise fault(k)
                 return fbval.get(k, 0)
+        elif kind == "bool":
+            def getter(self) -> bool:
+                k = begin_fb(self)
+                if k in raises:
+                    raise fault(k)
+                v = fbval.get(k, 0)
+                last_bool[(owner0 if owner0 < 0 else ix(self, owner0), j)] = v
+                return v % 2 == 1
         elif kind == "int_quoted":
             def getter(self) -> "int":
                 k = begin_fb(self)
@@ -217,6 +229,7 @@ def main():
     for i in range(ncomp):
         ns = {}
         basens = {}
+        inj_ann = {}
         spec = case["comps"][i]
         if spec.get("same_as") is not None:
             comp_classes.append(comp_classes[spec["same_as"]])     # a second component of the same class
@@ -226,6 +239,11 @@ def main():
                 continue        # inherited from the parent component's class (marker or plain value alike)
             d = case["marked"].get("%d,%d" % (i, a))
             target = basens if (spec["inherit"] and a % 2 == 0) else ns
+            if d is None and case.get("inj_attrs") and a % 3 != 2 and (i + a) % 2 == 0 and spec.get("derives_from") is None:
+                # (a derived component class keeps its plain class attribute: that is what hides a marker of the same name in
+                # the class it derives from)
+                inj_ann[an(a)] = int        # an injected variable: the robot's c<i>_a<a> (createObjects), initially 0 as well
+                continue
             # every third declared default is a callable used as a plain value (a function as a "do nothing" strategy, a class
             # as a tag): the attribute is set back to that very object, nobody calls it
             target[an(a)] = will_reset_to(CallableInt(d) if (i + a) % 3 == 0 else d) if d is not None else 0
@@ -261,7 +279,7 @@ def main():
                     object.__setattr__(self, k_, v_)
                 return __setattr__
             ns["__setattr__"] = mk_hook(marked_names)
-        ns["__annotations__"] = {"peer": Shared}
+        ns["__annotations__"] = dict({"peer": Shared}, **inj_ann)
         ns["gain"] = tunable(i)
         if spec["has_setup"]:
             def mk_setup(i):
@@ -328,6 +346,10 @@ def main():
                     x = int(x[1:]) if (isinstance(x, str) and x[:1] == "s" and x[1:].lstrip("-").isdigit()) else -999998
                 elif kind == "list":
                     x = x[0] if (val.isIntegerArray() and len(x) == 2 and x[1] == 7) else -999996
+                elif kind == "bool":
+                    # a boolean topic holding the bit the getter returned last (the scripted value it was derived from is reported)
+                    lb = last_bool.get((o, fb_fn[j]))
+                    x = lb if (val.isBoolean() and lb is not None and x is (lb % 2 == 1)) else -999994
                 elif kind == "opt_int":
                     # Optional[int] names no topic type: the value decides (ntcore stores a python int given without a type as a number)
                     x = int(x) if ((val.isInteger() or val.isDouble()) and not isinstance(x, bool) and float(x).is_integer()) else -999995
@@ -346,9 +368,17 @@ def main():
         if k in raises:
             raise fault(k)
 
+    def create_objects(self):
+        self.peer = Shared()
+        if case.get("inj_attrs"):
+            for i_ in range(ncomp):
+                for a_ in range(nattr):
+                    if a_ % 3 != 2:
+                        setattr(self, "c%02d_%s" % (i_, an(a_)), 0)
+
     rns = {
         "control_loop_wait_time": period_us / 1e6,
-        "createObjects": lambda self: setattr(self, "peer", Shared()),
+        "createObjects": create_objects,
         "use_teleop_in_autonomous": bool(case["teleop_in_auto"]),
         "robotPeriodic": robotPeriodic,
         "autonomousInit": lambda self: cb(["Init", "Auto"]),
@@ -375,7 +405,7 @@ def main():
         for h_ in ("disabledPeriodic", "testPeriodic", "teleopInit", "autonomousInit", "robotPeriodic"):
             base_rns[h_] = rns.pop(h_)
     if split > 0:
-        Base = type("BaseRobot", (magicbot.MagicRobot,), dict(base_rns, **{"__annotations__": base_ann, "createObjects": lambda self: setattr(self, "peer", Shared())}))
+        Base = type("BaseRobot", (magicbot.MagicRobot,), dict(base_rns, **{"__annotations__": base_ann, "createObjects": create_objects}))
         rns["__annotations__"] = ann
         Robot = type("Robot", (Base,), rns)
     else:
